@@ -105,6 +105,37 @@ DEFS = [
     (r"parser::Parser::<'parser>::parse$", r"(assert\|Overflow:Sub|call\|.*index)",
      "yy_state_stack starts as [0]; a reduction by rule r pops YY_R2[r] entries after at least that many were pushed for the rule's symbols and pushes one: the stack is never empty (bison's driver invariant)",
      []),
+    # ---------------------------------------------------------------- recognizer
+    (r"dmntk_recognizer::canvas::scan$", r"(assert\|Overflow:Sub|call\|.*index)",
+     "content starts with one row and gets one more per pushed line while height counts the pushes: content[height - 1] is the row before the last, and height >= 1 after the increment", []),
+    (r"dmntk_recognizer::canvas::Canvas::", r".*",
+     "canvas invariant: `content` is a rectangle built once in scan() (every row padded to the longest line, cells are [char; LAYER_COUNT] arrays and the layer arguments are the LAYER_* constants); the cursor is only set by move_to() (clamped to the last row/column) and by the search functions to a cell they just read; points and rectangles are built from such positions (+1 for the exclusive right/bottom edges), so y < content.len() and x < content[y].len() at every access; the search_* loops test `> 0` / `< len - 1` before stepping and a rectangle spans at least two cells in each direction (each search moves at least one step). Side condition checked by the rule: `content` is never restructured outside scan()",
+     []),
+    (r"dmntk_recognizer::rect::Rect::(width|height)$", r"assert\|Overflow:Sub",
+     "rectangles are built with left <= right and top <= bottom: from cursor positions left-to-right / top-to-bottom (+1 exclusive edges) in the canvas, and in the plane from the main crossing p and the horizontal crossing q, which is found to the right of / below p (q.x >= p.x + 1) and inside width()/height()", []),
+    (r"dmntk_recognizer::rect::Rect::inc_top$", r"assert\|Overflow:Add", "top is a plane row index (< plane height) and offset is the constant 1 at the only call site", []),
+    (r"dmntk_recognizer::plane::Plane::(add_cell|row_len)$", r"call\|.*index",
+     "only called from Canvas::plane() with its `row` counter, which is incremented exactly when add_row() pushes a row (the plane starts with one row): row == content.len() - 1", []),
+    (r"dmntk_recognizer::plane::Plane::cell$", r"call\|.*index", "the two early returns above check row < content.len() and col < content[row].len()", [r"cmp:<:var:len"]),
+    (r"dmntk_recognizer::plane::Plane::finalize$", r"(assert\|Overflow:Sub|call\|alloc::vec::Vec::<>::remove)",
+     "a Plane is created with one row (Default) and rows are only added before finalize(): content.len() >= 1", []),
+    (r"dmntk_recognizer::plane::Plane::(remove_first_column|remove_last_row)$", r"(assert\|Overflow:Sub|call\|alloc::vec::Vec::<>::remove)",
+     "guarded by the emptiness test on the line above", [r"len_gt:0"]),
+    (r"dmntk_recognizer::plane::Plane::pivot$", r".*",
+     "plane invariant (finalize): non-empty rectangle; pivot() runs for RuleAsColumn tables only, whose last row (rule numbers) was removed while the row generated for the double crossing remains, so content[0] exists; all rows have the same length, so remove(0) succeeds for every row while row 0 is non-empty; last_mut() follows a push",
+     []),
+    (r"dmntk_recognizer::plane::Plane::recognize_hit_policy_placement$", r"call\|core::option::Option::<>::unwrap",
+     "plane invariant (finalize): at least one row and every row has width() >= 1 cells; called before any column is removed", [r"len_gt:0"]),
+    (r"dmntk_recognizer::plane::Plane::recognize_(horizontal|vertical)_rule_numbers$", r"(call\|.*index|assert\|Overflow:(Add|Sub))",
+     "plane invariant (finalize): non-empty rectangle, so row content.len() - 1 and column 0 exist; the scans test `row < content.len()` / `col < content[row].len()` before every access; rule numbers are compared with a counter bounded by the number of cells", []),
+    (r"dmntk_recognizer::plane::Plane::is_(horizontal|vertical)_output_double_line$", r"call\|.*index",
+     "private helpers: their two callers test `row < content.len()` resp. `col < content[row].len()` immediately before the call and pass column 0 resp. the last row of a non-empty rectangular plane", []),
+    (r"dmntk_recognizer::plane::Plane::(horz_\w+_rect|equal_regions_in_columns|unique_regions_in_columns)$", r"assert\|Overflow:Add",
+     "p, q and x are cell coordinates inside the plane (< number of rows/columns): + 1 cannot overflow", []),
+    (r"dmntk_recognizer::recognizer::Recognizer::recognize_horizontal_table$", r"(assert\|Overflow:(Add|Sub)|call\|core::option::Option::<>::unwrap)",
+     "r.bottom - 1 / r.top + k are used inside the arms of `match r.height()` for heights 1..3, so the rows exist (region_text is itself bounds-checked); last_mut() directly follows a push", []),
+    (r"dmntk_recognizer::builder::build$", r"call\|.*index",
+     "validate_size() returned Ok: it checks input_expressions.len() == input_clauses_count, input_values/output_values/output_components either empty or of clause count, every entries matrix has rule_count rows of the respective clause count (annotations included); the loops run to exactly these sizes", []),
     # ---------------------------------------------------------------- common / model-evaluator builders
     (r"dmntk_common::href::HRef as core::convert::TryFrom<&str>>::try_from$", r"call\|core::option::Option::<>::unwrap",
      "strip_prefix('#') is called only in the branch where starts_with('#') is true, so it returns Some", [r"call:starts_with=True"]),
